@@ -384,8 +384,31 @@ class Emitter:
             if c.get('kind') != 'CXXCtorInitializer':
                 continue
             fld = c.get('anyInit', {})
+            if c.get('baseInit') and c.get('inner'):
+                # base-class constructor: the derived struct starts with the base's fields (class_struct flattens them)
+                bc = self.T.ctype(c['baseInit']['qualType'])[0]
+                ini = self.strip_wrappers(c['inner'][0])
+                if ini.get('kind') != 'CXXConstructExpr':
+                    raise ExtractionError('%s: base initialiser of unexpected form' % self.cname)
+                ctx = Ctx(False)
+                args = [a for a in ini.get('inner', []) if a.get('kind') != 'CXXDefaultArgExpr']
+                al = [self.arg(a, ctx) for a in args]
+                key = '%s::%s|%s' % (bc, bc, ini.get('type', {}).get('qualType', ''))
+                cn = '%s__ctor_%d' % (bc, len(al))
+                for pat, name in self.cfg.get('ctor_names', []):
+                    if re.search(pat, '%s|%d' % (bc, len(al))):
+                        cn = name
+                call = '%s((%s *)self%s)' % (cn, bc, ''.join(', ' + a for a in al))
+                if cn in self.may_throw:
+                    self.uses_thrown = True
+                    prologue.append('  %s;' % call)
+                    prologue.append('  if (__tmcg_thrown) %s' % self.zero_ret())
+                else:
+                    prologue.append('  %s;' % call)
+                self.fire('E1_base_ctor')
+                continue
             if not fld or not c.get('inner'):
-                raise ExtractionError('%s: base/delegating constructor initialiser outside the subset' % self.cname)
+                raise ExtractionError('%s: delegating constructor initialiser outside the subset' % self.cname)
             fc, farr, fref = self.T.ctype(fld['type']['qualType'], fld['type'].get('desugaredQualType'))
             ini = self.strip_wrappers(c['inner'][0])
             ctx = Ctx(False)
@@ -1296,6 +1319,12 @@ def class_struct(cfg, relfile, cls, cname=None, skip=(), targs=None, extra_defs=
     if best is None:
         raise ExtractionError('class %s not found in %s' % (cls, relfile))
     lines = []
+    for b in best.get('bases', []):
+        bname = b['type']['qualType']
+        bs = class_struct(cfg, relfile, bname, None, skip, None, extra_defs)
+        inner = bs[bs.index('{') + 1: bs.rindex('}')].strip('\n')
+        lines.append('  /* fields of base class %s (flattened) */' % bname)
+        lines.append(inner)
     for c in best.get('inner', []):
         if c.get('kind') == 'FieldDecl':
             if c['name'] in skip:
